@@ -113,7 +113,7 @@ def type_token(dialect, key):
         tok = {
             "name": name,
             "dt": t._type_affinity is sqltypes.DateTime,
-            "ck": None if not cks else {"name": (str(cks[0].name) if cks[0].name is not None else None)},
+            "ck": None if not cks else {"name": (str(cks[0].name) if isinstance(cks[0].name, str) else None)},
         }
         _TY_CACHE[ck] = tok
     return _TY_CACHE[ck]
